@@ -13,7 +13,7 @@ inside mitmproxy.test.taddons).  For stream saving the on-disk bytes are additio
 through a second file handle after *every* hook: they must be a sequence of complete records
 holding exactly the flows finished so far - also when save_stream_file is a strftime pattern and
 the (patched, deterministic) clock makes the expanded name change before any step of the sequence.
-ReadFile.load_flows is judged by what reaches the master's addons (a recording addon and the real
+View.load_file is judged by what the view holds afterwards; ReadFile.load_flows by what reaches the master's addons (a recording addon and the real
 View) through the real Master.load_flow.  Record boundaries and record ids are computed
 with an independent tnetstring framer, not with mitmproxy's.
 """
@@ -381,7 +381,56 @@ def load_readfile(path, loader="readfile"):
     return r
 
 
+class _ErrorLog:
+    """stands in for the `logging` module inside addons/view.py while View.load_file runs: records what it reports"""
+
+    def __init__(self):
+        self.errors = []
+
+    def error(self, msg, *a, **kw):
+        self.errors.append(str(msg))
+
+    def __getattr__(self, name):
+        return getattr(logging, name)
+
+
+def load_view(path):
+    """the real View.load_file (command view.flows.load): the result is what the view holds afterwards, in load order.
+    load_file reports a FlowReadException through logging.error instead of raising it."""
+    # same single master/context as the ReadFile loader
+    if "ctx" not in _RF:
+        load_readfile(path)  # creates the context
+    r = G.ReadResult()
+    G.reset_module_state()
+    vw = _RF["ctx"][2]
+    vw.clear()
+    log = _ErrorLog()
+    real = view.logging
+    view.logging = log
+    try:
+        vw.load_file(path)
+    except KeyboardInterrupt:
+        raise
+    except BaseException as e:  # noqa: B036
+        r.end, r.exc, r.msg = "other", type(e).__name__, str(e)[:200]
+    finally:
+        view.logging = real
+    if r.end == "clean" and log.errors:
+        r.end, r.exc, r.msg = "flow_read_error", "FlowReadException", log.errors[0]
+    r.flows = list(vw._store.values())
+    if sorted(f.id for f in vw) != sorted(f.id for f in r.flows):
+        r.end, r.exc, r.msg = "other", "ViewMismatch", "store and view order disagree"
+    return r
+
+
+def _without_id(c):
+    """canon(state) without the top-level id (View.load_file gives every loaded flow a fresh id)"""
+    return ("d", tuple(p for p in c[1] if p[0] != ("s", "id")))
+
+
 def load(path, loader):
+    if loader == "view":
+        return load_view(path)
     if loader in READFILE_LOADERS:
         return load_readfile(path, loader)
     with open(path, "rb") as fo:
@@ -405,6 +454,8 @@ def judge_prefix(r, data_len, ends, want, o, feats, case, t: Tally, keep=None):
             raise
         except BaseException as e:  # noqa: B036
             got.append(("get_state failed", type(e).__name__))
+    if feats.get("loader") == "view":
+        got, want = [_without_id(g) for g in got], [_without_id(w) for w in want]
     ok = got == want[:k]
     t.judge("prefix_of_complete_flows", ok, feats, case, "the first %d flows with their saved state" % k,
             None if ok else {"loaded": len(got), "first_difference": next((i for i, (a, b) in enumerate(zip(got, want)) if a != b), min(len(got), k))})
@@ -531,6 +582,8 @@ def file_specs(thorough):
         both = (s[0] < 5 and s[1] < 5) if thorough else (s[0] in (0, 2, 4) and s[1] in (0, 2, 4))
         loaders = ["reader", "readfile"] if both else ["reader"]
         if both and (thorough or s[0] != s[1]):
+            loaders.append("view")
+        if both and (thorough or s[0] != s[1]):
             # readfile_filter set: matching every flow, some flows (HTTP only), none
             loaders += ["readfile-filter-all", "readfile-filter-some"] + (["readfile-filter-none"] if thorough else [])
         out.append(({"w": "save.file", "s": list(s)}, loaders))
@@ -541,7 +594,8 @@ def file_specs(thorough):
     for sc in SCENARIOS:  # (rotation scenarios produce several files; they are judged at the hook boundaries only)
         if sc == "big-record" and not thorough:
             continue
-        out.append(({"w": "stream", "sc": sc}, ["reader", "readfile"] if thorough or sc in ("sequential", "interleaved", "open-at-stop") else ["reader"]))
+        out.append(({"w": "stream", "sc": sc}, (["reader", "readfile"] if thorough or sc in ("sequential", "interleaved", "open-at-stop") else ["reader"])
+                    + (["view"] if thorough or sc == "interleaved" else [])))
     return out
 
 
@@ -568,7 +622,7 @@ def run(ctx):
         "flow_pool": ["%s%s" % (t, d or "") for t, d in POOL], "max_flows_per_file": 3 if thorough else 2,
         "pair_pool": 8 if thorough else 4, "triples": "ordered triples of distinct base types + homogeneous triples (65 files)" if thorough else "none",
         "writers": ["save.file", "FilteredFlowWriter(None)", "FilteredFlowWriter(~all)", "Save addon stream"],
-        "loaders": ["FlowReader on a real file", "ReadFile.load_flows"] + ["ReadFile.load_flows with readfile_filter=%s" % v[0] for v in READFILE_LOADERS.values() if v[0]], "truncation": "every offset 0..len",
+        "loaders": ["FlowReader on a real file", "ReadFile.load_flows", "View.load_file (view.flows.load)"] + ["ReadFile.load_flows with readfile_filter=%s" % v[0] for v in READFILE_LOADERS.values() if v[0]], "truncation": "every offset 0..len",
         "hook_scenarios": {k: len(v) for k, v in SCENARIOS.items()}, "files": nfiles,
         "rotation_scenarios": "clock tick (strftime name change) before every step of the interleaved scenario%s; append mode at %s positions" % (
             " and every pair of positions" if thorough else "", "all" if thorough else "3"),
